@@ -7,6 +7,11 @@ CONSTANTS
   MaxCalls = 3
   DoScan = FALSE
   TrigonalFixed = TRUE
+  BigHkls = {}
+  ConcPairs = {}
+  CoarseNames = {}
+  Stride = 1
+  PublishEarly = FALSE
 INVARIANT TypeOK
 INVARIANT GenOK
 INVARIANT Closed
